@@ -131,6 +131,13 @@ def run(res, tier, seed, replay):
         ("ban=13", [("main.jst", J + "MACRO @m\n(\n  Body any\n)\nGET /a\n  200\n    PASTE @m\n")], "main.jst", len(J + "MACRO @m\n(\n  ")),
         ("ban=21", [("main.jst", J + "MACRO @m\n(\n  200 any\n)\nGET /a\n  PASTE @m\n")], "main.jst", len(J)),
         ("ban=22", [("main.jst", J + "MACRO @m\n(\n  200 any\n)\nGET /a\n  PASTE @m\n")], "main.jst", len(J + "MACRO @m\n(\n  200 any\n)\nGET /a\n  ")),
+        # refused when it is READ: before its own parameters are looked at and before a following INCLUDE is executed
+        ("ban=21", [("main.jst", J + "MACRO @m\nINCLUDE missing.jst\n")], "main.jst", len(J)),
+        ("ban=19", [("main.jst", J + "TYPE @a @a\n{}\n")], "main.jst", len(J)),
+        ("ban=19", [("main.jst", J + "TYPE @a\nINCLUDE broken.jst\n"), ("broken.jst", "%%%\n")], "main.jst", len(J)),
+        ("ban=7", [("main.jst", J + "URL\nINCLUDE missing.jst\n")], "main.jst", len(J)),
+        ("ban=8", [("main.jst", J + "URL /a\n  GET x y z\n")], "main.jst", len(J + "URL /a\n  ")),
+        ("ban=15", [("main.jst", J + "GET /a\n  200 any any\n")], "main.jst", len(J + "GET /a\n  ")),
     ]
     outs = C.run_lines("harness", "fn", [P.run_line(o, pj) for o, pj, _, _ in special])
     res.count(len(special))
